@@ -135,6 +135,13 @@ func (x *Exec) typedRefType(env *CEnv, s string) types.Type {
 	if i := strings.Index(name, "["); i >= 0 {
 		name = name[:i]
 	}
+	// a pointer to a type parameter of the unit
+	if env.ttypes != nil && env.ttypes[name] != nil {
+		return types.NewPointer(env.ttypes[name])
+	}
+	if tp, ok := x.typeParamObjs[name]; ok {
+		return types.NewPointer(tp)
+	}
 	tn, ok := x.pkg.Types.Scope().Lookup(name).(*types.TypeName)
 	if !ok {
 		x.cfail(env, "unknown type %s", s)
